@@ -10,31 +10,44 @@ Open Scope Z_scope.
 
 Definition nsites : list site := map num_site DH.Generated.Facts_C07.rng_sites.
 Definition nenv : list esite := map num_env DH.Generated.Facts_C07.env_sites.
-Definition wfacts : world := world_of_facts DH.Generated.Facts_C07.cbo_opt_kwargs DH.Generated.Facts_C07.sample_max_size_default.
+Definition wfacts : world :=
+  world_of_facts DH.Generated.Facts_C07.cbo_opt_kwargs DH.Generated.Facts_C07.sample_max_size_default DH.Generated.Facts_C07.seed_test_accepts_numpy_int.
 
 (* the translator's own obligation: it recognised every shape (fail closed otherwise), and the numeric copies it derived from
    the tables of Keys.v are the ones Coq computes from the string facts *)
 Lemma sites_complete :
   DH.Generated.Facts_C07.srcfacts_ok = true /\ map site_triple nsites = DH.Generated.Facts_C07.rng_sites_num /\ map esite_quad nenv = DH.Generated.Facts_C07.env_sites_num /\
-  w_sample_possible wfacts = DH.Generated.Facts_C07.world_num.
+  w_sample_possible wfacts = DH.Generated.Facts_C07.world_num /\ w_npint_seeded wfacts = DH.Generated.Facts_C07.seed_test_accepts_numpy_int.
 Proof. vm_compute. repeat split; reflexivity. Qed.
 
 Ltac by_cases c :=
   destruct c as [s su a d st ini cond moo tr seed];
-  destruct s, a, tr, seed; cbn [in_quantifier is_mes is_regevo c_search c_acq c_transfer c_int_seed andb negb] in *;
+  destruct s, a, tr, seed; cbn [in_quantifier int_seed np_seed is_mes is_regevo c_search c_acq c_transfer c_seed andb negb] in *;
   try discriminate; try contradiction; vm_compute; reflexivity.
 
-(* every call site a non-MES configuration class of the property's quantifier can reach draws from the seeded stream *)
-Lemma sites_seeded : forall c, in_quantifier c = true -> is_mes c = false -> sites_ok wfacts c nsites = true.
-Proof. intros c Hq Hm. by_cases c. Qed.
+(* every call site that a non-MES configuration class of the property's quantifier, built from a PYTHON int seed, can reach draws from
+   the seeded stream *)
+Lemma sites_seeded : forall c, in_quantifier c = true -> is_mes c = false -> np_seed c = false -> sites_ok wfacts c nsites = true.
+Proof. intros c Hq Hm Hn. by_cases c. Qed.
 
 Lemma mes_refuted : forall c, is_mes c = true -> site_in prefix_mes_site nsites = true -> sites_ok wfacts c nsites = false.
 Proof. intros c Hm Hin. apply mes_site_breaks; assumption. Qed.
 
-(* once the norm.rvs site is no longer a global draw (fixes/F09), the MES classes are covered as well *)
-Lemma sites_seeded_when_mes_fixed : site_in prefix_mes_site nsites = false -> forall c, in_quantifier c = true -> sites_ok wfacts c nsites = true.
+(* once the norm.rvs site is no longer a global draw (fix of F09), the MES classes are covered as well *)
+Lemma sites_seeded_when_mes_fixed : site_in prefix_mes_site nsites = false -> forall c, in_quantifier c = true -> np_seed c = false -> sites_ok wfacts c nsites = true.
 Proof.
-  intros H. vm_compute in H. first [ discriminate H | (intros c Hq; by_cases c) ].
+  intros H. vm_compute in H. first [ discriminate H | (intros c Hq Hn; by_cases c) ].
+Qed.
+
+(* F87: while Search.__init__ tests `type(random_state) is int`, a numpy integer seed reaches the unseeded RandomState() *)
+Lemma npint_refuted : w_npint_seeded wfacts = false -> forall c, np_seed c = true -> site_in fresh_search_site nsites = true -> sites_ok wfacts c nsites = false.
+Proof. intros Hw c Hn Hin. apply fresh_site_breaks; assumption. Qed.
+
+(* with both repairs in the source every class of the quantifier - numpy-integer seeds included - passes the site check *)
+Lemma sites_seeded_when_all_fixed : site_in prefix_mes_site nsites = false -> w_npint_seeded wfacts = true ->
+  forall c, in_quantifier c = true -> sites_ok wfacts c nsites = true.
+Proof.
+  intros H1 H2. vm_compute in H1. vm_compute in H2. first [ discriminate H1 | discriminate H2 | (intros c Hq; by_cases c) ].
 Qed.
 
 (* environment reads: nothing a class other than RegularizedEvolution can reach flows anywhere but log messages / log file names *)
@@ -50,10 +63,10 @@ Proof.
 Qed.
 
 (* the consequence for executions: any schedule of reachable sites, any deterministic computation between the draws *)
-Lemma seeded_runs_ignore_global : forall c, in_quantifier c = true -> is_mes c = false -> forall sched,
+Lemma seeded_runs_ignore_global : forall c, in_quantifier c = true -> is_mes c = false -> np_seed c = false -> forall sched,
   (forall i, In i sched -> exists s, nth_error nsites i = Some s /\ reach wfacts c s = true) ->
   forall out sd g g' j j',
     run (prog_of out (map (src_at wfacts c nsites) sched) []) sd g 0 j = run (prog_of out (map (src_at wfacts c nsites) sched) []) sd g' 0 j'.
 Proof.
-  intros c Hq Hm sched Hs. apply sites_ok_deterministic; [apply sites_seeded; assumption | exact Hs].
+  intros c Hq Hm Hn sched Hs. apply sites_ok_deterministic; [apply sites_seeded; assumption | exact Hs].
 Qed.
